@@ -126,33 +126,6 @@ Proof.
   - split; [reflexivity|apply exp_error_ok; assumption].
 Qed.
 
-(** * optional<T&> *)
-Definition absr (s : rstate) : list Z * (option nat * option nat) := (cells s, (pa s, pb s)).
-
-Lemma set_nth_spec : forall l i v,
-  set_nth l i v = firstn i l ++ match skipn i l with [] => [] | _ :: r => v :: r end.
-Proof.
-  induction l as [|a l IH]; intros i v.
-  - destruct i; reflexivity.
-  - destruct i as [|i]; cbn [set_nth firstn skipn app]; [reflexivity|]. rewrite IH. reflexivity.
-Qed.
-
-Theorem rstep_refines : forall s o, exists s', rstep s o = Ok s' /\ absr s' = sr_step (absr s) o.
-Proof.
-  intros [cs a b] o. destruct o as [[|] c|[|]|[|]| |[|] v|[|]]; unfold absr; cbn [rstep sr_step rpick rput spick sput cells pa pb fst snd];
-    try (eexists; split; reflexivity).
-  - destruct b as [c|]; eexists; (split; [reflexivity|]); cbn [cells pa pb]; [rewrite set_nth_spec|]; reflexivity.
-  - destruct a as [c|]; eexists; (split; [reflexivity|]); cbn [cells pa pb]; [rewrite set_nth_spec|]; reflexivity.
-Qed.
-
-Theorem rrun_refines : forall ops s, exists s', rrun s ops = Ok s' /\ absr s' = sr_run (absr s) ops.
-Proof.
-  induction ops as [|o r IH]; intro s.
-  - exists s. split; reflexivity.
-  - destruct (rstep_refines s o) as [s1 [H1 Ha1]]. destruct (IH s1) as [s2 [H2 Ha2]].
-    exists s2. cbn [rrun]. rewrite H1. cbn [rbind]. split; [exact H2|]. rewrite Ha2, Ha1. reflexivity.
-Qed.
-
 (** * unexpected<E> *)
 Theorem ustep_refines : forall E s o, ustep E s o = su_step E s o.
 Proof.
